@@ -156,9 +156,14 @@ pub fn tiny_recipe_strategy() -> BoxedStrategy<Recipe> {
             if !pkt && pre.is_empty() {
                 pre.push(Stage::Nrzi);
             }
+            // one sample-source case in four: a second source of the same total length, all
+            // delivered at once, merged with the pieces by a two-input sync block (Xor): one
+            // input runs dry while the other has a backlog
+            let total: u32 = src_pieces.iter().map(|x| *x as u32).sum();
+            let src2 = if !pkt && seed % 4 == 0 { Some(Gen { pat: 0, len: total, seed: seed ^ 0x77 }) } else { None };
             Recipe {
-                src: Gen { pat: 0, len: src_pieces.iter().map(|x| *x as u32).sum(), seed },
-                src2: None,
+                src: Gen { pat: 0, len: total, seed },
+                src2,
                 pre,
                 diamond: None,
                 post: vec![],
